@@ -276,6 +276,11 @@ let () =
   let orc_of (i : nat) : int oracle =
     let ii = int_of_nat i in
     table_oracle (List.filter_map (fun (inst, e) -> match inst with None -> Some e | Some k -> if k = ii then Some e else None) tabs) in
+  (* is this script in the domain of the theorems: callback actions well formed (wf_oracle) and every operation in contract *)
+  if not (table_okb cfg (List.map snd tabs)) then prerr_endline "contract: a callback table entry names a state id out of range";
+  (match first_violation cfg orc_of O { insts = List.init 4 (fun _ -> None); glog = [] } ops with
+   | None -> ()
+   | Some k -> prerr_endline (Printf.sprintf "contract: operation %d is out of contract" (int_of_nat k)));
   let w = wrun cfg orc_of (nat_of_int 4) ops in
   let k = ref (-1) in
   List.iter (fun g ->
